@@ -1,224 +1,569 @@
-"""C10 - data directives emit exactly the documented bytes; misfitting values are refused."""
+"""C10 - data directives emit exactly the documented bytes; misfitting values are refused.
+
+The rules are stated over path summaries of whole functions (`hwalk.function_paths`: helpers, closures and function-valued
+parameters are followed) and over *evaluation* of the symbolic format / size expressions (`symeval`): for every documented keyword
+and every integer sample around the comparison constants of the code, the format that reaches struct.pack is computed and compared
+with the documentation, the size() method and the reference table.  No rule looks at names of locals, helper functions or tables;
+the anchors are the item classes (Sequence, ShorthandPack, Pack, String, IncludeBytes, Blob) and the entry point `assemble`."""
 import ast
 
 from ..core import Report, Finding, AnalysisError
 from ..facts import Facts
-from ..astutil import unparse, dotted, walk_no_nested, fold, NotConstant
+from ..astutil import unparse, dotted, walk_no_nested
 from ..callgraph import CallGraph
-from ..prov import Prov
+from ..prov import Prov, coarse
 from ..pathwalk import show, is_const, C
-from .. import layoutrules as LR, oracle, docs
-from ..immsites import find_all, contains
-from .c16 import reachable
+from ..hwalk import function_paths, all_values
+from ..symeval import SymEval, Undecided, LookupFailed, Lin, STRUCT_STANDARD, breakpoints
+from .. import oracle, docs, codecchain as CC
+from ..immsites import find_all, contains, ctor_fields
 
 LEVEL = 'other'
-NARROWING = {'&', '%', '>>', '<<', '|', '^', '//', '*', '+', '-'}
+NARROWING = {'&', '%', '>>', '<<', '|', '^', '//', '*', '+', '-', '**'}
+WRAPPERS = ('c_uint32', 'c_int32', 'c_uint8', 'c_int8', 'c_uint16', 'c_int16', 'c_uint64', 'c_int64', 'abs', 'min', 'max', 'divmod', 'pow')
+ATOMIC = ('havoc', 'attr', 'name', 'var', 'unpack', 'sub', 'item', 'lv')
+INT_LETTERS = 'bBhHiIlLqQ'
+SELF = ('name', 'self')
 
 
-def size_table(facts, cls):
-    ci = facts.classes.get(cls)
-    if ci is None or 'size' not in ci.methods:
-        raise AnalysisError('anchor vanished: {}.size'.format(cls))
-    for n in ast.walk(ci.methods['size']):
-        if isinstance(n, ast.Dict):
-            try:
-                return fold(n), n
-            except NotConstant:
-                pass
-    raise AnalysisError('{}.size has no literal width table'.format(cls))
+# -- program structure -------------------------------------------------------------------------------------------------------
+class Model:
+    def __init__(self, facts):
+        self.facts = facts
+        self._paths = {}
+
+    def users(self, cls):
+        """Module-level functions that handle items of class `cls`: they mention the class other than by constructing it
+        (isinstance tests, the class passed to a generic skeleton)."""
+        out = []
+        for name, fn in self.facts.funcs.items():
+            ctor = {id(n.func) for n in ast.walk(fn) if isinstance(n, ast.Call) and isinstance(n.func, ast.Name)}
+            if any(isinstance(n, ast.Name) and n.id == cls and isinstance(n.ctx, ast.Load) and id(n) not in ctor for n in ast.walk(fn)):
+                out.append(name)
+        return out
+
+    def untouched_defaults(self, fn):
+        """Parameters with a default that no call in the module ever passes (for a module-level function that is only called
+        directly): they are analysed with their default value."""
+        if self.facts.funcs.get(fn.name) is not fn:
+            return ()
+        a = fn.args
+        pos = [x.arg for x in getattr(a, 'posonlyargs', []) + a.args]
+        with_default = set(pos[len(pos) - len(a.defaults):]) | {x.arg for x, d in zip(a.kwonlyargs, a.kw_defaults) if d is not None}
+        if not with_default:
+            return ()
+        passed = set()
+        for n in ast.walk(self.facts.tree):
+            if isinstance(n, ast.Call) and isinstance(n.func, ast.Name) and n.func.id == fn.name:
+                if any(isinstance(x, ast.Starred) for x in n.args) or any(k.arg is None for k in n.keywords):
+                    return ()
+                passed |= set(pos[:len(n.args)]) | {k.arg for k in n.keywords}
+            elif isinstance(n, ast.Name) and n.id == fn.name and isinstance(n.ctx, ast.Load) and not (isinstance(getattr(n, '_parent', None), ast.Call) and n._parent.func is n):
+                return ()        # used as a value: it may be called with anything
+        return tuple(sorted(with_default - passed))
+
+    def paths(self, fn, self_class=None):
+        if id(fn) not in self._paths:
+            self._paths[id(fn)] = function_paths(self.facts, fn, self_class=self_class, defaults=self.untouched_defaults(fn))[1]
+        return self._paths[id(fn)]
+
+    def method(self, cls, name):
+        owner, m = self.facts.method(cls, name)
+        if m is None:
+            raise AnalysisError('anchor vanished: {}.{}'.format(cls, name))
+        self.paths(m, self_class=cls)       # walked with `self` known to be a cls (so that self.helper() is followed)
+        return m
+
+    def returns(self, fn):
+        """[(path, returned symbolic value, node)] of the non-raising paths of a function."""
+        out = []
+        for p in self.paths(fn):
+            if p.end == 'return':
+                ev = [e for e in p.events if e[0] == 'return'][-1]
+                out.append((p, ev[1], ev[2]))
+            elif p.end == 'fallthrough':
+                out.append((p, C(None), fn))
+        return out
+
+    def items_of(self, path, cls):
+        return [v for v, f in path.facts.items() if cls in f['isa']]
+
+    def sites(self, cls, pred):
+        """[(function name, path, item symbol, site value, ast node)] for values satisfying `pred` on the non-raising paths (of the
+        functions handling `cls`) on which an item is known to be a `cls`."""
+        out = []
+        for fname in self.users(cls):
+            for p in self.paths(self.facts.funcs[fname]):
+                if p.end == 'raise':
+                    continue
+                items = self.items_of(p, cls)
+                if not items:
+                    continue
+                seen = []
+                for part, node in all_values(p):
+                    for s in find_all(part, pred):
+                        if s in seen:
+                            continue
+                        seen.append(s)
+                        xs = [x for x in items if contains(s, x)]
+                        if xs:
+                            out.append((fname, p, xs[0], s, node))
+        return out
 
 
-def local_table(fn, name):
-    for n in ast.walk(fn):
-        if isinstance(n, ast.Assign) and isinstance(n.targets[0], ast.Name) and n.targets[0].id == name and isinstance(n.value, ast.Dict):
-            return fold(n.value), n
-    return None, None
+def strip_res(v):
+    while isinstance(v, tuple) and v and v[0] == 'res':
+        v = v[3]
+    return v
 
 
-def check_widths(rep, facts, doc_text):
-    for cls, fn_name, doc_heading, want in (('Sequence', 'resolve_sequences', 'integer sequences', oracle.SEQUENCE_WIDTHS),
-                                            ('ShorthandPack', 'transform_shorthand_packs', 'shorthand', oracle.SHORTHAND_WIDTHS)):
-        sizes, snode = size_table(facts, cls)
-        fn = facts.funcs.get(fn_name)
-        if fn is None:
-            raise AnalysisError('anchor vanished: ' + fn_name)
-        formats, fnode = local_table(fn, 'formats')
-        if formats is None:
-            raise AnalysisError('{}: no literal `formats` table'.format(fn_name))
+def normalise(facts, v):
+    """Rewrite <Cls(args...)>.attr to the constructor argument stored in that attribute (a freshly built object's field is the value
+    it was built from), and drop result wrappers."""
+    if not isinstance(v, tuple) or not v:
+        return v
+    if v[0] == 'res':
+        return normalise(facts, v[3])
+    v = tuple(normalise(facts, x) if isinstance(x, tuple) else x for x in v)
+    if v[0] == 'attr' and isinstance(v[1], tuple) and v[1] and v[1][0] == 'new' and v[1][1] in facts.classes:
+        order = dict(facts.full_attr_order(v[1][1]))
+        param = order.get(v[2])
+        fields = ctor_fields(facts, v[1])
+        if param in fields:
+            return fields[param]
+    return v
+
+
+def is_pack_call(t):
+    """struct.pack(fmt, v), struct.Struct(fmt).pack(v) or <a Struct object taken from a table>.pack(v)"""
+    if t[0] == 'call' and t[1] == 'struct.pack':
+        return True
+    if t[0] == 'mcall' and t[2] == 'pack':
+        r = strip_res(t[1])
+        if r[0] == 'call' and r[1] == 'struct.Struct':
+            return True
+        # a method of a repo class named pack is not a struct packing; a subscripted / attribute value may be a Struct object
+        return r[0] in ('sub', 'unpack', 'ifexp') or (r[0] == 'attr' and r[1][0] == 'name')
+    return False
+
+
+def pack_args(t):
+    """(positional arguments incl. the format, keyword arguments) of a packing call"""
+    if t[0] == 'call':
+        return tuple(t[2]), t[3]
+    r = strip_res(t[1])
+    if r[0] == 'call' and r[1] == 'struct.Struct':
+        return tuple(r[2]) + tuple(t[3]), tuple(r[3]) + tuple(t[4])
+    return (('attr', r, 'format'),) + tuple(t[3]), tuple(t[4])
+
+
+def feasible(ev, path, syms, what):
+    """The path's conditions that mention one of `syms` hold under the evaluator's bindings (None = some other condition)."""
+    for test, pol, node in path.conds:
+        if not any(contains(test, s) for s in syms):
+            continue
+        try:
+            val = bool(ev.ev(test))
+        except Undecided as e:
+            raise AnalysisError('{}: the condition `{}` on the value / keyword cannot be evaluated ({})'.format(what, show(test)[:100], e))
+        if val != pol:
+            return False
+    return True
+
+
+# -- R10.1 / R10.2 integer directives ------------------------------------------------------------------------------------------
+def key_attribute(model, cls):
+    """The attribute by which `cls.size()` selects the width (the directive keyword), and the attribute whose length multiplies it."""
+    m = model.method(cls, 'size')
+    keys, lens = set(), set()
+    self_attr = lambda t: t[0] == 'attr' and t[1] == SELF
+    for p, v, node in model.returns(m):
+        for t in find_all(v, lambda t: t[0] == 'sub'):
+            keys.update(a[2] for a in find_all(t[2], self_attr))
+        for t in find_all(v, lambda t: t[0] == 'mcall' and t[2] == 'get' and t[3]):
+            keys.update(a[2] for a in find_all(t[3][0], self_attr))
+        for t in find_all(v, lambda t: t[0] == 'call' and t[1] == 'len' and len(t[2]) == 1 and self_attr(t[2][0])):
+            lens.add(t[2][0][2])
+        for test, pol, _ in p.conds:
+            for t in find_all(test, lambda t: t[0] == 'cmp' and is_const(t[3])):
+                keys.update(a[2] for a in find_all(t[2], self_attr))
+    keys -= lens
+    if len(keys) != 1 or len(lens) > 1:
+        raise AnalysisError('{}.size(): cannot tell which attribute selects the width (candidates {})'.format(cls, sorted(keys)))
+    return next(iter(keys)), (next(iter(lens)) if lens else None)
+
+
+def size_of(model, cls, key_attr, len_attr, kw):
+    """Width in bytes that cls.size() accounts for one value of keyword kw (Lin in the number of values for sequences)."""
+    m = model.method(cls, 'size')
+    results = set()
+    for p, v, node in model.returns(m):
+        bind = {('attr', SELF, key_attr): kw}
+        if len_attr is not None:
+            bind[('call', 'len', (('attr', SELF, len_attr),), ())] = Lin(1, 0)
+        ev = SymEval(model.facts, bind, {SELF: cls})
+        try:
+            if not feasible(ev, p, [('attr', SELF, key_attr)], cls + '.size()'):
+                continue
+            results.add(ev.ev(v))
+        except LookupFailed:
+            results.add(None)
+        except Undecided as e:
+            raise AnalysisError('{}.size() for {!r}: {}'.format(cls, kw, e))
+    if len(results) != 1:
+        raise AnalysisError('{}.size() for {!r}: paths disagree ({})'.format(cls, kw, results))
+    r = next(iter(results))
+    if isinstance(r, Lin):
+        return r.a if r.b == 0 else ('not proportional', r)
+    return r
+
+
+def check_integer_directives(rep, model, doc_text):
+    facts = model.facts
+    # pack: which attributes of a Pack item reach struct.pack as format and as value
+    pack_sites = model.sites('Pack', is_pack_call)
+    fmt_attr = val_attr = None
+    for fname, p, x, s, node in pack_sites:
+        a = [strip_res(y) for y in pack_args(s)[0]]
+        ok = len(a) == 2 and not pack_args(s)[1] and all(y[0] == 'attr' and y[1] == x for y in a) and a[0][2] != a[1][2]
+        if not ok and find_all(tuple(a), lambda u: u[0] in ('callv', 'opaque') or (u[0] == 'call' and u[1] not in ('int', 'str', 'abs', 'min', 'max', 'len'))):
+            raise AnalysisError('{}: what is packed for a Pack item is not understood: {}'.format(fname, show(s)[:120]))
+        rep.check(ok, 'R10.3.pack', '{}: pack emits struct.pack(<the item\'s format>, <the item\'s value>)'.format(fname),
+                  lambda s=s, node=node, fname=fname: Finding('R10.3.pack', fname, node, 'pack emits struct.pack({}) instead of the given format applied to the given value'.format(
+                      ', '.join(show(y) for y in pack_args(s)[0])), line=getattr(node, 'lineno', None)))
+        if ok:
+            if fmt_attr not in (None, a[0][2]) or val_attr not in (None, a[1][2]):
+                raise AnalysisError('Pack: struct.pack sites disagree about the format / value attributes')
+            fmt_attr, val_attr = a[0][2], a[1][2]
+    rep.analysed['pack sites'] = len(pack_sites)
+    if fmt_attr is None:
+        if rep.findings:
+            return
+        raise AnalysisError('no struct.pack site handling Pack items was understood')
+    msize = model.method('Pack', 'size')
+    rets = model.returns(msize)
+    ok = bool(rets) and all(strip_res(v) == ('call', 'struct.calcsize', (('attr', SELF, fmt_attr),), ()) for _, v, _ in rets)
+    rep.check(ok, 'R10.3.pack', 'Pack.size() == struct.calcsize of the format that is packed',
+              lambda: Finding('R10.3.pack', 'Pack.size', msize, 'Pack.size() is not the size of the format that is packed', line=msize.lineno))
+    order = dict((attr, src) for attr, src in facts.full_attr_order('Pack'))
+    fmt_param, val_param = order.get(fmt_attr), order.get(val_attr)
+    if fmt_param is None or val_param is None:
+        raise AnalysisError('Pack.__init__ does not store its format / value parameters in {} / {}'.format(fmt_attr, val_attr))
+
+    cover = set()
+    for cls, doc_heading, want in (('Sequence', 'integer sequences', oracle.SEQUENCE_WIDTHS), ('ShorthandPack', 'shorthand', oracle.SHORTHAND_WIDTHS)):
+        key_attr, len_attr = key_attribute(model, cls)
+        if cls == 'Sequence':
+            raw = model.sites(cls, is_pack_call)
+            for f, p, x, s, node in raw:
+                if len(pack_args(s)[0]) != 2 or pack_args(s)[1]:
+                    raise AnalysisError('{}: packing call {} is not (format, one value)'.format(f, show(s)[:100]))
+            sites = [(f, p, x, strip_res(pack_args(s)[0][0]), strip_res(pack_args(s)[0][1]), node) for f, p, x, s, node in raw]
+        else:
+            raw = model.sites(cls, lambda t: t[0] == 'new' and t[1] == 'Pack')
+            sites = []
+            for f, p, x, s, node in raw:
+                fields = ctor_fields(facts, s)
+                if fmt_param not in fields or val_param not in fields:
+                    raise AnalysisError('{}: Pack(...) built without a format / value'.format(f))
+                sites.append((f, p, x, strip_res(fields[fmt_param]), strip_res(fields[val_param]), node))
+        if not sites:
+            raise AnalysisError('no site was found where a {} item is packed'.format(cls))
         documented = docs.keyword_table(doc_text, 'Keyword', doc_heading)
-        for kw in sorted(set(want) | set(sizes) | set(formats) | set(documented)):
-            w = want.get(kw)
-            letter = formats.get(kw)
-            st = oracle.STRUCT_SIZES.get(letter) if isinstance(letter, str) else None
-            ok = w is not None and sizes.get(kw) == w and st == w and documented.get(kw) == w and isinstance(letter, str) and letter.isupper()
-            rep.check(ok, 'R10.1.width', '{}: {} bytes in docs, size(), struct format {!r} and the reference table'.format(kw, w, letter),
-                      lambda kw=kw, w=w, letter=letter, st=st, sizes=sizes, documented=documented, fnode=fnode: Finding(
-                          'R10.1.width', fn_name, fnode,
-                          '`{}`: documented {} bytes, size() says {}, struct format {!r} packs {} bytes, reference {}'.format(
-                              kw, documented.get(kw), sizes.get(kw), letter, st, w), line=fnode.lineno), nontrivial=True)
+        sizes = {kw: size_of(model, cls, key_attr, len_attr, kw) for kw in sorted(set(want) | set(documented))}
+        # the value that is packed is the user's value, untouched
+        live_sites = []
+        for f, p, x, fmt, val, node in sites:
+            narrowing = find_all(val, lambda t: t[0] == 'bin' and t[1] in NARROWING) or find_all(val, lambda t: t[0] in ('call', 'mcall') and (t[1] in WRAPPERS or (t[0] == 'mcall' and t[2] == 'value')))
+            inst = '{} [{}]'.format(f, p.cond_text()[-60:])
+            if narrowing:
+                rep.fail(Finding('R10.2.no-narrowing', f, node, 'the value handed to struct.pack is {} - arithmetic between the user\'s value and the packing silently '
+                                 'wraps values that do not fit'.format(show(val)[:120]), line=getattr(node, 'lineno', None)), instance=inst)
+                continue
+            if val[0] not in ATOMIC:
+                raise AnalysisError('{}: the packed value {} is not understood'.format(f, show(val)[:100]))
+            if cls == 'ShorthandPack' and not (val[0] == 'attr' and val[1] == x):
+                raise AnalysisError('{}: the packed value {} is not an attribute of the item'.format(f, show(val)[:100]))
+            rep.ok('R10.2.no-narrowing', inst + ': the user\'s value reaches struct.pack unchanged')
+            live_sites.append((f, p, x, fmt, val, node))
+        keywords = set(want) | set(documented)
+        for f, p, x, fmt, val, node in live_sites:
+            keysym = ('attr', x, key_attr)
+            for kw in sorted(keywords):
+                w = want.get(kw)
+                base = SymEval(facts, {keysym: kw}, {x: cls})
+                try:
+                    bps = breakpoints([fmt] + [t for t, _, _ in p.conds], val, base)
+                except Undecided as e:
+                    raise AnalysisError('{}: {}'.format(f, e))
+                samples = sorted({-1, 0, 1} | {c + d for c in bps for d in (-1, 0, 1)})
+                for v in samples:
+                    ev = SymEval(facts, {keysym: kw, val: v}, {x: cls})
+                    if not feasible(ev, p, [val, keysym], f):
+                        continue
+                    neg = v < 0
+                    inst = '{} {} [{}]'.format(f, kw, 'negative' if neg else 'non-negative')
+                    try:
+                        got = ev.ev(fmt)
+                    except LookupFailed as e:
+                        rep.fail(Finding('R10.1.width', f, node, '`{}` is documented but has no struct format ({})'.format(kw, e), line=getattr(node, 'lineno', None)), instance=inst)
+                        continue
+                    except Undecided as e:
+                        raise AnalysisError('{}: the struct format for `{}` cannot be evaluated: {}'.format(f, kw, e))
+                    cover.add((cls, kw, neg))
+                    loc = dict(line=getattr(node, 'lineno', None))
+                    if not (isinstance(got, str) and len(got) == 2 and got[1] in INT_LETTERS):
+                        rep.fail(Finding('R10.1.width', f, node, '`{}` (value {}) is packed with format {!r}: not a byte order followed by one integer code'.format(kw, v, got), **loc), instance=inst)
+                        continue
+                    rep.check(got[0] == '<', 'R10.1.byte-order', inst + ': little endian',
+                              lambda got=got, kw=kw: Finding('R10.1.byte-order', f, node, '`{}` is packed with format {!r}: not little endian'.format(kw, got), **loc))
+                    st = STRUCT_STANDARD[got[1]]
+                    rep.check(w is not None and st == w == sizes.get(kw) == documented.get(kw), 'R10.1.width',
+                              '{} {}: {} bytes in docs, size(), struct format {!r} and the reference table'.format(f, kw, w, got),
+                              lambda kw=kw, w=w, got=got, st=st: Finding('R10.1.width', f, node, '`{}`: documented {} bytes, size() says {}, struct format {!r} packs {} bytes, reference {}'.format(
+                                  kw, documented.get(kw), sizes.get(kw), got, st, w), **loc))
+                    rep.check(got[1].islower() == neg, 'R10.2.sign', inst + ': format ' + got,
+                              lambda kw=kw, got=got, neg=neg, v=v: Finding('R10.2.sign', f, node, '`{}` packs the {} value {} with format {!r}: the {} code of that width is required'.format(
+                                  kw, 'negative' if neg else 'non-negative', v, got, 'signed' if neg else 'unsigned'), **loc))
         rep.count('width table rows', len(want))
+        if not rep.findings:
+            for kw in sorted(want):
+                for neg in (True, False):
+                    if (cls, kw, neg) not in cover:
+                        raise AnalysisError('{} `{}`: no path packs a {} value'.format(cls, kw, 'negative' if neg else 'non-negative'))
+    rep.analysed['sign/format cases'] = len(cover)
 
 
-def check_signedness(rep, facts):
-    """R10.2: per keyword and per branch the struct format is '<' + unsigned letter, lower-cased exactly when the value is negative;
-    the value reaches struct.pack untouched."""
-    n = 0
-    for fname, cls in (('resolve_sequences', 'Sequence'), ('transform_shorthand_packs', 'ShorthandPack')):
-        pa = LR.pass_analysis(facts, fname)
-        fn = pa.fn
-        formats, fnode = local_table(fn, 'formats')
-        for r in pa.rows:
-            p = r['path']
-            f = p.facts.get(pa.item)
-            if not f or cls not in f['isa'] or p.end == 'raise':
-                continue
-            key = r.get('seed')
-            neg = None
-            for t, pol, node in p.conds:
-                if t[0] == 'cmp' and t[1] == '<' and t[3] == C(0):
-                    neg = pol
-                    operand = t[2]
-                elif t[0] == 'cmp' and t[1] in ('<=', '>=', '>') and is_const(t[3]):
-                    neg = 'other'
-                    operand = t[2]
-            packs = []
-            for ev in p.events:
-                if ev[0] == 'value':
-                    packs += find_all(ev[1], lambda t: t[0] == 'call' and t[1] == 'struct.pack')
-                    if ev[1][0] == 'new' and ev[1][1] == 'Pack':
-                        packs.append(ev[1])
-            if not packs:
-                continue      # zero-length sequence path
-            n += 1
-            pk = packs[0]
-            if pk[0] == 'call':
-                fmt, val = pk[2][0], pk[2][1]
-            else:
-                fmt, val = pk[2][1], pk[2][2]
-            node = [e[2] for e in p.events if e[0] == 'value' and (contains(e[1], pk) or e[1] == pk)][0]
-            inst = '{} {} [{}]'.format(fname, key, 'negative' if neg is True else ('non-negative' if neg is False else neg))
-            if neg == 'other' or neg is None:
-                rep.fail(Finding('R10.2.sign', fname, node, 'the signed/unsigned format is not chosen by the test `value < 0`', line=node.lineno), instance=inst)
-                continue
-            letter = formats.get(key)
-            want = '<' + (letter.lower() if neg else letter) if isinstance(letter, str) else None
-            rep.check(is_const(fmt) and fmt[1] == want, 'R10.2.sign', inst + ': format ' + str(want),
-                      lambda fmt=fmt, want=want, node=node, key=key, neg=neg: Finding('R10.2.sign', fname, node,
-                                                                                     '`{}` packs a {} value with format {} instead of {!r} (little endian, {} letter of the same width)'.format(
-                                                                                         key, 'negative' if neg else 'non-negative', show(fmt), want, 'signed' if neg else 'unsigned'), line=node.lineno))
-            # the tested value and the packed value are the same, unmodified
-            narrowing = find_all(val, lambda t: t[0] == 'bin' and t[1] in NARROWING) or find_all(val, lambda t: t[0] == 'call' and t[1] in ('c_uint32', 'c_int32', 'abs', 'min', 'max'))
-            same = val == operand
-            rep.check(not narrowing and same, 'R10.2.no-narrowing', inst + ': the user\'s value reaches struct.pack unchanged',
-                      lambda val=val, node=node, key=key: Finding('R10.2.no-narrowing', fname, node,
-                                                                  '`{}`: the value handed to struct.pack is {} - arithmetic between the user\'s value and the packing silently wraps values that do not fit'.format(
-                                                                      key, show(val)), line=node.lineno))
-    rep.analysed['sign/format cases'] = n
-    # pack: fmt and imm pass unchanged
-    pa = LR.pass_analysis(facts, 'resolve_packs')
-    for r in pa.rows:
-        p = r['path']
-        for ev in p.events:
-            if ev[0] == 'value':
-                for pk in find_all(ev[1], lambda t: t[0] == 'call' and t[1] == 'struct.pack'):
-                    ok = pk[2] == (('attr', pa.item, 'fmt'), ('attr', pa.item, 'imm'))
-                    rep.check(ok, 'R10.3.pack', 'pack: struct.pack(item.fmt, item.imm)',
-                              lambda pk=pk, ev=ev: Finding('R10.3.pack', 'resolve_packs', ev[2], 'pack emits struct.pack({}) instead of the given format applied to the given value'.format(
-                                  ', '.join(show(a) for a in pk[2])), line=ev[2].lineno))
-    ci = facts.classes['Pack']
-    sz = unparse(ci.methods['size'])
-    rep.check('struct.calcsize(self.fmt)' in sz, 'R10.3.pack', 'Pack.size() == struct.calcsize of the same format',
-              lambda: Finding('R10.3.pack', 'Pack.size', ci.methods['size'], 'Pack.size() is not the size of the format that is packed', line=ci.methods['size'].lineno))
+# -- R10.4 strings -----------------------------------------------------------------------------------------------------------------
+def check_strings(rep, model):
+    facts = model.facts
+    CC.RESOLVE[0] = SymEval(facts, {}, {SELF: 'String'}).ev          # codec names held in module-level / class-level constants
+    # what String.size() measures
+    msize = model.method('String', 'size')
+    size_ops, text_attr = None, None
+    for p, v, node in model.returns(msize):
+        v = strip_res(v)
+        if not (v[0] == 'call' and v[1] == 'len' and len(v[2]) == 1):
+            raise AnalysisError('String.size() does not return the length of a value: {}'.format(show(v)[:80]))
+        base, ops = CC.split_chain(v[2][0])
+        if not (base[0] == 'attr' and base[1] == SELF):
+            raise AnalysisError('String.size() measures {} (not an attribute of the item)'.format(show(base)[:80]))
+        if size_ops is not None and (ops, base[2]) != (size_ops, text_attr):
+            raise AnalysisError('String.size(): paths disagree')
+        size_ops, text_attr = ops, base[2]
+    if size_ops is None:
+        raise AnalysisError('String.size() has no returning path')
+    utf8 = lambda s: s.encode('utf-8')
+    # emission
+    n_emit = 0
+    for fname, p, x, s, node in model.sites('String', lambda t: t[0] == 'new' and t[1] == 'Blob'):
+        fields = ctor_fields(facts, s)
+        data = [v for k, v in fields.items() if contains(v, x) and k != 'line']
+        data = [v for v in data if contains(v, ('attr', x, text_attr))]
+        if not data:
+            continue
+        n_emit += 1
+        CC.RESOLVE[0] = SymEval(facts, {}, {SELF: 'String', x: 'String'}).ev
+        base, ops = CC.split_chain(strip_res(data[0]))
+        if base != ('attr', x, text_attr):
+            raise AnalysisError('{}: string data {} is not a codec chain over the item\'s text'.format(fname, show(data[0])[:100]))
+        if CC.well_typed(ops, 'str') != 'bytes':
+            raise AnalysisError('{}: {} does not turn text into bytes'.format(fname, CC.describe(ops)))
+        bad = CC.check_chain(ops, CC.DENOTED_CLASSES, utf8)
+        rep.check(not bad, 'R10.4.utf8', '{}: string emits the UTF-8 encoding of its text for every character class'.format(fname),
+                  lambda bad=bad, ops=ops, node=node, fname=fname: Finding('R10.4.utf8', fname, node, 'string data is emitted as value{}: for {} it is not the UTF-8 encoding of the text ({!r} -> {}, expected {!r})'.format(
+                      CC.describe(ops), bad[0][0], bad[0][1], bad[0][3], bad[0][2]), line=getattr(node, 'lineno', None)))
+        if CC.well_typed(size_ops, 'str') is None:
+            raise AnalysisError('String.size(): {} is not applicable to text'.format(CC.describe(size_ops)))
+        mism = size_mismatch(size_ops, ops) if not bad else None
+        rep.check(not mism, 'R10.4.utf8', 'String.size() measures the bytes that {} emits'.format(fname),
+                  lambda mism=mism, ops=ops: Finding('R10.4.utf8', 'String.size', msize, 'String.size() measures value{} but value{} is emitted: the sizes differ for {}'.format(
+                      CC.describe(size_ops), CC.describe(ops), mism), line=msize.lineno))
+    rep.analysed['string emission sites'] = n_emit
+    mism = size_mismatch(size_ops, [CC.make_op('encode', 'utf-8', 'strict')])
+    rep.check(not mism, 'R10.4.utf8', 'String.size() measures the UTF-8 encoding',
+              lambda: Finding('R10.4.utf8', 'String.size', msize, 'String.size() measures value{}: not the length of the UTF-8 encoding for {}'.format(CC.describe(size_ops), mism), line=msize.lineno))
 
-
-def check_strings(rep, facts):
-    # emission codec == size codec == utf-8
-    pa = LR.pass_analysis(facts, 'resolve_strings')
-    for r in pa.rows:
-        for val, node in r['app_values']:
-            if val[0] == 'new' and val[1] == 'Blob':
-                data = val[2][1]
-                ok = data == ('mcall', ('attr', pa.item, 'value'), 'encode', (C('utf-8'),), ())
-                rep.check(ok, 'R10.4.utf8', 'string emits value.encode("utf-8")',
-                          lambda node=node, data=data: Finding('R10.4.utf8', 'resolve_strings', node, 'string data is emitted as {} instead of the UTF-8 encoding of its text'.format(show(data)), line=node.lineno))
-    ci = facts.classes['String']
-    sz = unparse(ci.methods['size'])
-    rep.check("len(self.value.encode('utf-8'))" in sz, 'R10.4.utf8', 'String.size() measures the UTF-8 encoding',
-              lambda: Finding('R10.4.utf8', 'String.size', ci.methods['size'], 'String.size() does not measure the bytes that are emitted', line=ci.methods['size'].lineno))
-    # codec round trip in the lexer
+    # escape processing in the lexer: the text of a `string` token
     fn = facts.funcs.get('lex_tokens')
     if fn is None:
         raise AnalysisError('anchor vanished: lex_tokens')
     sites = 0
-    string_vars = set()
-    for n in ast.walk(fn):
-        if isinstance(n, ast.List) and n.elts and isinstance(n.elts[0], ast.Constant) and n.elts[0].value == 'string' and len(n.elts) == 2 and isinstance(n.elts[1], ast.Name):
-            string_vars.add(n.elts[1].id)
-    for n in ast.walk(fn):
-        if isinstance(n, ast.Assign) and isinstance(n.targets[0], ast.Name) and n.targets[0].id in string_vars:
-            v = n.value
-            if isinstance(v, ast.Call) and isinstance(v.func, ast.Attribute) and v.func.attr == 'decode' and v.args \
-                    and isinstance(v.args[0], ast.Constant) and v.args[0].value in ('unicode_escape', 'unicode-escape'):
-                enc = v.func.value
-                sites += 1
-                ok = False
-                c1 = None
-                if isinstance(enc, ast.Call) and isinstance(enc.func, ast.Attribute) and enc.func.attr == 'encode':
-                    args = [a.value for a in enc.args if isinstance(a, ast.Constant)]
-                    kw = {k.arg: k.value.value for k in enc.keywords if isinstance(k.value, ast.Constant)}
-                    c1 = args[0] if args else kw.get('encoding', 'utf-8')
-                    errors = args[1] if len(args) > 1 else kw.get('errors')
-                    ok = str(c1).lower().replace('_', '-') in ('latin-1', 'latin1', 'iso-8859-1', 'iso8859-1', 'ascii') and errors == 'backslashreplace'
-                rep.check(ok, 'R10.4.escape-codec', 'string text: encode(single-byte codec, backslashreplace).decode(unicode_escape)',
-                          lambda n=n, c1=c1: Finding('R10.4.escape-codec', 'lex_tokens', n,
-                                                     'escape processing re-reads the text through `.encode({!r}).decode(\'unicode_escape\')`: unicode_escape decodes bytes as Latin-1, so every '
-                                                     'non-ASCII character becomes two or more characters (`string \\u00e9` emits c3 83 c2 a9); the round trip is the identity only for a '
-                                                     'single-byte codec with errors=\'backslashreplace\''.format(c1), line=n.lineno))
+    for p, v, node in model.returns(fn):
+        for t in find_all(v, lambda t: t[0] in ('list', 'tuple') and len(t[1]) == 2 and t[1][0] == C('string')):
+            sites += 1
+            base, ops = CC.split_chain(strip_res(t[1][1]))
+            hidden = find_all(base, lambda u: (u[0] == 'mcall' and u[2] in ('encode', 'decode')) or (u[0] == 'call' and u[1] in ('bytes', 'codecs.encode', 'codecs.decode')))
+            if hidden or not ops:
+                raise AnalysisError('lex_tokens: the text of a string token is {}: not a codec chain applied to the selected source text'.format(show(t[1][1])[:120]))
+            if CC.well_typed(ops, 'str') != 'str':
+                raise AnalysisError('lex_tokens: {} does not turn text into text'.format(CC.describe(ops)))
+            bad = CC.check_chain(ops, CC.CLASSES, lambda s: s[1])
+            rep.check(not bad, 'R10.4.escape-codec', 'string text: escape processing text{} denotes the right character for every class of source text'.format(CC.describe(ops)),
+                      lambda bad=bad, ops=ops, node=node: Finding(
+                          'R10.4.escape-codec', 'lex_tokens', node,
+                          'escape processing re-reads the text through `{}`: for {} the source spelling {!r} becomes {} instead of {!r} '
+                          '(a decoder for byte escapes reads its input as Latin-1 / raw bytes; the round trip is the identity only when every non-escape character is '
+                          'first mapped to the single byte / escape equal to its code point){}'.format(
+                              CC.describe(ops), bad[0][0], bad[0][1], bad[0][3], bad[0][2],
+                              '; also wrong for: ' + ', '.join(b[0] for b in bad[1:4]) if len(bad) > 1 else ''), line=getattr(node, 'lineno', None)))
     rep.analysed['string escape sites'] = sites
 
 
-def check_include_bytes(rep, facts):
+def size_mismatch(size_ops, emit_ops):
+    """Name of a character class on which len(size chain) differs from len(emission chain) (or only one of them raises), or None."""
+    for name, samples in CC.DENOTED_CLASSES:
+        for t in samples:
+            a, b = CC.run(size_ops, t), CC.run(emit_ops, t)
+            if a[0] != b[0] or (a[0] == 'ok' and len(a[1]) != len(b[1])):
+                return name
+    return None
+
+
+# -- R10.5 include_bytes -------------------------------------------------------------------------------------------------------------
+def check_same_file(rep, facts):
+    """The file whose size is measured for the layout and the file remembered for the content are one and the same path value:
+    in the function that calls os.path.getsize, a path stored on the line object is the very value that was measured."""
+    from ..pathwalk import loop_paths, main_loop
+    n = 0
+    for fname, fn in facts.funcs.items():
+        if not any(isinstance(x, ast.Call) and dotted(x.func) == 'os.path.getsize' for x in ast.walk(fn)):
+            continue
+        if main_loop(fn) is None:
+            continue
+        _, loop, paths = loop_paths(facts, fn)
+        for p in paths:
+            measured = []
+            for ev in p.events:
+                v = strip_res(ev[1]) if ev[0] == 'value' else None
+                if v is not None and v[0] == 'call' and v[1] == 'os.path.getsize' and v[2]:
+                    measured.append(v[2][0])
+            if not measured:
+                continue
+            for ev in p.events:
+                if ev[0] != 'setattr':
+                    continue
+                v = ev[3]
+                sv = strip_res(v)
+                pathlike = v in measured or (sv[0] == 'call' and sv[1].startswith('os.path.')) or \
+                    any(strip_res(m)[0] in ('call', 'callv') and sv[0] == strip_res(m)[0] and sv[1] == strip_res(m)[1] for m in measured)
+                if not pathlike:
+                    continue
+                n += 1
+                rep.check(v in measured, 'R10.5.same-file', '{}: the path remembered on the line is the path that was measured'.format(fname),
+                          lambda ev=ev, v=v, fname=fname: Finding('R10.5.same-file', fname, ev[4],
+                                                                  'the size appended to the include_bytes line is measured on {} but the content will be read from {}: '
+                                                                  'when both exist the layout is computed for one file and the bytes come from another'.format(
+                                                                      show(measured[0])[:60], show(v)[:60]), line=getattr(ev[4], 'lineno', None)))
+    rep.count('remembered include_bytes paths', n)
+
+
+def check_include_bytes(rep, model):
+    check_same_file(rep, model.facts)
+    facts = model.facts
     cg = CallGraph(facts)
     pv = Prov(facts, cg)
-    reach = sorted(reachable(cg, 'assemble'))
+    if 'assemble' not in cg.funcs:
+        raise AnalysisError('anchor vanished: assemble')
+    reach = sorted(pv.reach('assemble'))
+    # the functions that handle IncludeBytes items and everything they call
+    handlers = set()
+    for u in model.users('IncludeBytes') + [q for q in cg.funcs if q.split('.')[0] in facts.mro('IncludeBytes')]:
+        handlers |= pv.reach(u, dynamic=False)
     n = 0
+    unclear = []
     for q, node, name, arg in pv.sinks(reach):
-        if q in ('resolve_include_bytes',) or (name == 'os.path.getsize'):
+        if q in handlers or name == 'os.path.getsize':
             n += 1
-            k = pv.kind(arg, q)
-            rep.check(k == 'Resolved', 'R10.5.provenance', '{}: {}({}) uses the path the include search returned'.format(q, name, unparse(arg)),
-                      lambda q=q, node=node, name=name, arg=arg, k=k: Finding('R10.5.provenance', q, node,
-                                                                              'include_bytes: {}({}) is given a {} path; size and content must both come from the file the include search found'.format(
-                                                                                  name, unparse(arg), k), line=node.lineno))
+            ks = set(pv.kinds(arg, q)) - {'NoneK'}
+            # a violation is text of the source line (or a literal) reaching the filesystem; any other mixture of kinds is an
+            # imprecision of the (field-name based, context-insensitive) dataflow: no verdict
+            if ks != {'Resolved'} and not ks & {'RawToken', 'Literal'}:
+                unclear.append('{}: the path given to {}({}) could not be classified ({})'.format(q, name, unparse(arg), sorted(ks)))
+                continue
+            rep.check(ks == {'Resolved'}, 'R10.5.provenance', '{}: {}({}) uses the path the include search returned'.format(q, name, unparse(arg)),
+                      lambda q=q, node=node, name=name, arg=arg, ks=ks: Finding('R10.5.provenance', q, node,
+                                                                                'include_bytes: {}({}) is given a {} path; size and content must both come from the file the include search found'.format(
+                                                                                    name, unparse(arg), coarse(ks)), line=node.lineno))
     rep.analysed['include_bytes filesystem sites'] = n
-    fn = facts.funcs.get('resolve_include_bytes')
-    guards = [x for x in ast.walk(fn) if isinstance(x, (ast.Assert, ast.If)) and 'fsize' in unparse(x.test) and 'len(' in unparse(x.test)]
-    rep.check(bool(guards), 'R10.5.size-check', 'content length is checked against the size the labels were computed from',
-              lambda: Finding('R10.5.size-check', 'resolve_include_bytes', fn, 'the embedded content is not checked against the size used for layout', line=fn.lineno))
-    opens = [x for x in ast.walk(fn) if isinstance(x, ast.Call) and dotted(x.func) == 'open']
-    for o in opens:
-        mode = o.args[1].value if len(o.args) > 1 and isinstance(o.args[1], ast.Constant) else None
-        rep.check(mode == 'rb', 'R10.5.binary', 'include_bytes reads in binary mode',
-                  lambda o=o, mode=mode: Finding('R10.5.binary', 'resolve_include_bytes', o, 'the file is opened with mode {!r}: content is decoded / newline-translated'.format(mode), line=o.lineno))
+    if unclear and not rep.findings:
+        raise AnalysisError(unclear[0])
+    # the size the labels were computed from
+    msize = model.method('IncludeBytes', 'size')
+    size_attrs = set()
+    for p, v, node in model.returns(msize):
+        v = strip_res(v)
+        if not (v[0] == 'attr' and v[1] == SELF):
+            raise AnalysisError('IncludeBytes.size() returns {}'.format(show(v)[:80]))
+        size_attrs.add(v[2])
+    if len(size_attrs) != 1:
+        raise AnalysisError('IncludeBytes.size(): no single size attribute')
+    size_attr = next(iter(size_attrs))
+    n_blobs = 0
+    for fname, p, x, s, node in model.sites('IncludeBytes', lambda t: t[0] == 'new' and t[1] == 'Blob'):
+        fields = ctor_fields(facts, s)
+        datas = [strip_res(v) for k, v in fields.items() if find_all(v, lambda t: t[0] == 'call' and t[1] in ('open', 'io.open'))]
+        if not datas:
+            continue
+        n_blobs += 1
+        data = datas[0]
+        opens = find_all(data, lambda t: t[0] == 'call' and t[1] in ('open', 'io.open'))
+        shape_ok = data[0] == 'mcall' and data[2] == 'read' and not data[3] and data[1][0] == 'ctx' and strip_res(data[1][1]) == opens[0]
+        if not shape_ok:
+            raise AnalysisError('{}: the embedded data {} is not <open(path, mode)>.read()'.format(fname, show(data)[:100]))
+        o = opens[0]
+        kw = dict(o[3])
+        mode = o[2][1] if len(o[2]) > 1 else kw.get('mode', C('r'))
+        onode = next((e[2] for e in p.events if e[0] == 'with' and strip_res(e[1]) == o), node)
+        rep.check(is_const(mode) and isinstance(mode[1], str) and 'b' in mode[1] and 'r' in mode[1] and '+' not in mode[1], 'R10.5.binary', '{}: include_bytes reads in binary mode'.format(fname),
+                  lambda mode=mode, node=onode, fname=fname: Finding('R10.5.binary', fname, node, 'the file is opened with mode {}: content is decoded / newline-translated'.format(show(mode)), line=getattr(node, 'lineno', None)))
+        length, size = ('call', 'len', (normalise(facts, data),), ()), ('attr', x, size_attr)
+        tests = [(ev[1], True) for ev in p.events if ev[0] == 'assert'] + [(t, pol) for t, pol, _ in p.conds]
+        guarded, unclear = False, None
+        for t, pol in tests:
+            t = normalise(facts, t)
+            if not (t[0] == 'cmp' and ((t[1] == '==' and pol) or (t[1] == '!=' and not pol))):
+                continue
+            sides = [t[2], t[3]]
+            for mine, wanted in ((length, size), (size, length)):
+                if mine in sides:
+                    other = sides[1 - sides.index(mine)]
+                    if other == wanted:
+                        guarded = True
+                    elif find_all(other, lambda u: u[0] in ('mcall', 'callv', 'new') or (u[0] == 'call' and u[1] not in ('len', 'int', 'abs', 'min', 'max'))):
+                        unclear = other
+        if not guarded and unclear is not None:
+            raise AnalysisError('{}: the content length is compared with {}, which is not understood'.format(fname, show(unclear)[:80]))
+        rep.check(guarded, 'R10.5.size-check', '{}: content length is checked against the size the labels were computed from'.format(fname),
+                  lambda fname=fname, node=node: Finding('R10.5.size-check', fname, node, 'the embedded content is not checked against the size used for layout ({}.{})'.format('IncludeBytes', size_attr),
+                                                         line=getattr(node, 'lineno', None)))
+    rep.analysed['include_bytes content sites'] = n_blobs
 
 
 def run(repo, tier):
     facts = Facts(repo.asm)
     rep = Report('C10', LEVEL,
-                 'Table agreement: documented widths (RST grids) == size() tables == struct standard size of the format letters == reference; '
-                 'per keyword and branch the struct format is "<" + the unsigned letter, lower-cased exactly on the negative branch, and the '
-                 'tested value reaches struct.pack unchanged (no arithmetic narrowing); pack passes format and value through; strings are '
-                 'emitted and measured as UTF-8 and escape processing uses a codec whose round trip through unicode_escape is the identity; '
-                 'include_bytes size and content both come from the path the include search returned (provenance kinds), binary mode, length check.')
-    rep.trusted_base = ['CPython ast', 'struct rejects out-of-range values for standard sizes (library contract)', 'Latin-1 contract of the unicode_escape codec',
-                        'bbverif.pathwalk / prov']
-    rep.not_decided = ['that struct.pack refuses every misfit (library contract)', 'full unicode_escape processing of backslash sequences']
-    check_widths(rep, facts, repo.text['docs/assembly_language.rst'])
-    check_signedness(rep, facts)
-    check_strings(rep, facts)
-    check_include_bytes(rep, facts)
+                 'For every documented keyword and every integer sample around the comparison constants of the code, the struct format that '
+                 'reaches struct.pack (followed through helpers, closures, module-level and derived tables, conditional expressions) is evaluated: '
+                 'little endian, an integer code whose standard size equals the documented width == size() == the reference table, signed exactly '
+                 'for negative values; the tested value reaches struct.pack unchanged (no arithmetic narrowing); pack passes format and value '
+                 'through and is measured by calcsize of the same format; string escape processing and emission are codec chains interpreted '
+                 'over character classes (ASCII / Latin-1 / BMP / astral / each escape form) and must denote, resp. emit as UTF-8, the right '
+                 'text for every class, with size() measuring the emitted bytes; include_bytes size and content both come from the path the '
+                 'include search returned (provenance dataflow), binary mode, length checked against the size attribute.')
+    rep.trusted_base = ['CPython ast', 'struct rejects out-of-range values for standard sizes (library contract)', 'CPython codecs (applied to representatives of each character class)',
+                        'bbverif.pathwalk / hwalk / symeval / prov']
+    rep.not_decided = ['that struct.pack refuses every misfit (library contract)', 'lone surrogates and malformed escapes in string text']
+    model = Model(facts)
+    doc_text = repo.text['docs/assembly_language.rst']
+    check_integer_directives(rep, model, doc_text)
+    check_strings(rep, model)
+    check_include_bytes(rep, model)
     rep.floor('width table rows', 9)
     rep.floor('sign/format cases', 18)
+    rep.floor('pack sites', 1)
     rep.floor('string escape sites', 1)
+    rep.floor('string emission sites', 1)
     rep.floor('include_bytes filesystem sites', 2)
+    rep.floor('include_bytes content sites', 1)
     return rep
